@@ -9,6 +9,8 @@ import (
 	"strings"
 
 	"github.com/coyim/otr3"
+
+	"verifsim/refotr"
 )
 
 //go:embed testdata/keys.txt
@@ -58,6 +60,8 @@ type PartyCfg struct {
 	LazyTag    bool   `json:"lazytag"` // do not initialise the tag at creation
 	NoKeys     bool   `json:"nokeys"`
 	Peer       int    `json:"peer"` // index of the party its output is sent to
+	Ref        bool   `json:"ref,omitempty"`     // this party is the reference implementation (refotr.Peer), not a real Conversation
+	RefFrag    int    `json:"reffrag,omitempty"` // payload bytes per fragment for a reference party (0: no fragmentation)
 }
 
 type Event struct {
@@ -141,6 +145,12 @@ type Party struct {
 	Incar int // incarnation (crash/restart count)
 	cur   *CallResult
 
+	Ref       *refotr.Peer // non-nil: reference party
+	RefSecret []byte       // secret a reference party answers SMP with
+	RefAuto   bool         // reference party drives SMP by itself
+	SMPResult []int        // results reported by the reference party's SMP steps
+	refInbox  int
+
 	Sends    int      // number of Send calls with generated text
 	SentText [][]byte // all texts passed to Send (any incarnation)
 	Calls    int
@@ -185,6 +195,10 @@ func (p *Party) emit(e Event) {
 
 // build creates a fresh Conversation through the public API only.
 func (p *Party) build() {
+	if p.Cfg.Ref {
+		p.buildRef()
+		return
+	}
 	c := &otr3.Conversation{}
 	if p.Cfg.Pol&PolV2 != 0 {
 		c.Policies.AllowV2()
@@ -226,7 +240,57 @@ func (p *Party) build() {
 	p.Conv = c
 }
 
+func (p *Party) buildRef() {
+	p.Rand = NewSimRand(Mix(p.W.Seed, "rand."+p.Name, uint64(p.Incar)), &p.W.Seq)
+	v := uint16(3)
+	if p.Cfg.Pol&PolV3 == 0 {
+		v = 2
+	}
+	tag := p.Cfg.Tag
+	for tag < 0x100 {
+		var b [4]byte
+		_, _ = p.Rand.Read(b[:])
+		tag = uint32(b[0])<<24 | uint32(b[1])<<16 | uint32(b[2])<<8 | uint32(b[3])
+	}
+	p.Ref = refotr.NewPeer(v, &p.Key.PrivateKey, p.Rand, tag)
+	p.refInbox = 0
+	p.RefAuto = true
+	if p.RefSecret == nil {
+		p.RefSecret = SecretByID(0)
+	}
+}
+
+func (p *Party) refPost() PostState {
+	s := PostState{Enc: p.Ref.Encrypted, SSID: p.Ref.SSID, TheirTag: p.Ref.TheirTag, HL: 1}
+	if p.Ref.TheirPub != nil {
+		s.FP = hex.EncodeToString(refotr.Fingerprint(p.Ref.TheirPub))
+	}
+	if p.Ref.Initiator {
+		s.HL = 0
+	}
+	return s
+}
+
+// refOut fragments a reference party's output if configured.
+func (p *Party) refOut(msgs [][]byte) [][]byte {
+	if p.Cfg.RefFrag <= 0 {
+		return msgs
+	}
+	var out [][]byte
+	for _, m := range msgs {
+		if refotr.IsArmored(m) && len(m) > p.Cfg.RefFrag {
+			out = append(out, refotr.Fragment(p.Ref.Version, p.Ref.OurTag, p.Ref.TheirTag, m, p.Cfg.RefFrag)...)
+		} else {
+			out = append(out, m)
+		}
+	}
+	return out
+}
+
 func (p *Party) post() PostState {
+	if p.Ref != nil {
+		return p.refPost()
+	}
 	c := p.Conv
 	s := PostState{Enc: c.IsEncrypted(), SSID: c.GetSSID(), TheirTag: c.GetTheirInstanceTag()}
 	if k := c.GetTheirKey(); k != nil {
@@ -304,6 +368,18 @@ func errStr(e error) string {
 func (p *Party) Send(text []byte) *CallResult {
 	p.SentText = append(p.SentText, cp(text))
 	return p.call("send", cp(text), func(r *CallResult) {
+		if p.Ref != nil {
+			if !p.Ref.Encrypted {
+				r.Out = [][]byte{cp(text)}
+				return
+			}
+			m, err := p.Ref.Send(cp(text), nil, 0)
+			if err == nil {
+				r.Out = p.refOut([][]byte{m})
+			}
+			r.Err = errStr(err)
+			return
+		}
 		out, err := p.Conv.Send(otr3.ValidMessage(cp(text)))
 		r.Out, r.Err = cpMsgs(out), errStr(err)
 	})
@@ -311,6 +387,10 @@ func (p *Party) Send(text []byte) *CallResult {
 
 func (p *Party) Receive(msg []byte) *CallResult {
 	return p.call("recv", cp(msg), func(r *CallResult) {
+		if p.Ref != nil {
+			p.refReceive(r, msg)
+			return
+		}
 		plain, out, err := p.Conv.Receive(otr3.ValidMessage(cp(msg)))
 		if plain != nil {
 			r.Plain = append([]byte{}, plain...)
@@ -321,6 +401,17 @@ func (p *Party) Receive(msg []byte) *CallResult {
 
 func (p *Party) End() *CallResult {
 	return p.call("end", nil, func(r *CallResult) {
+		if p.Ref != nil {
+			if p.Ref.Encrypted {
+				m, err := p.Ref.Disconnect()
+				if err == nil {
+					r.Out = p.refOut([][]byte{m})
+				}
+				r.Err = errStr(err)
+			}
+			p.Ref.Encrypted, p.Ref.Finished = false, false
+			return
+		}
 		out, err := p.Conv.End()
 		r.Out, r.Err = cpMsgs(out), errStr(err)
 	})
@@ -328,6 +419,15 @@ func (p *Party) End() *CallResult {
 
 func (p *Party) SMPStart(question string, secret []byte) *CallResult {
 	return p.call("smpstart", append([]byte(question+"|"), secret...), func(r *CallResult) {
+		if p.Ref != nil {
+			p.RefSecret = cp(secret)
+			m, err := p.Ref.SMPStart(cp(secret), []byte(question), question != "")
+			if err == nil {
+				r.Out = p.refOut([][]byte{m})
+			}
+			r.Err = errStr(err)
+			return
+		}
 		out, err := p.Conv.StartAuthenticate(question, cp(secret))
 		r.Out, r.Err = cpMsgs(out), errStr(err)
 	})
@@ -355,9 +455,56 @@ func (p *Party) ExtraKey(usage uint32, data []byte) *CallResult {
 }
 
 // Query returns the query message the user would send to start OTR (no state change).
-func (p *Party) Query() []byte { return cp(p.Conv.QueryMessage()) }
+func (p *Party) Query() []byte {
+	if p.Ref != nil {
+		return p.Ref.Query()
+	}
+	return cp(p.Conv.QueryMessage())
+}
 
 func (p *Party) SetFrag(n int) {
 	p.Cfg.Frag = n
+	if p.Ref != nil {
+		return
+	}
 	p.Conv.SetFragmentSize(uint16(n))
+}
+
+// refReceive lets a reference party process one transport message; if RefAuto
+// is set it also drives its SMP state machine with RefSecret.
+func (p *Party) refReceive(r *CallResult, msg []byte) {
+	out, err := p.Ref.Receive(cp(msg))
+	r.Err = errStr(err)
+	for p.refInbox < len(p.Ref.Inbox) {
+		d := p.Ref.Inbox[p.refInbox]
+		p.refInbox++
+		if len(d.Text) > 0 {
+			r.Plain = cp(d.Text)
+		}
+		for _, t := range d.TLVs {
+			switch {
+			case t.Type >= refotr.TLVSMP1 && t.Type <= refotr.TLVSMP1Q:
+				if !p.RefAuto {
+					continue
+				}
+				m, res, serr := p.Ref.SMPStep(t, p.RefSecret)
+				p.SMPResult = append(p.SMPResult, res)
+				name := []string{"InProgress", "Success", "Failure", "Abort"}
+				if res >= 0 && res < len(name) {
+					p.emit(Event{Kind: "smp", Name: name[res]})
+				}
+				if serr != nil {
+					p.emit(Event{Kind: "smp", Name: "Cheated", Err: serr.Error()})
+				}
+				if m != nil {
+					out = append(out, m)
+				}
+			case t.Type == refotr.TLVExtraKey:
+				p.emit(Event{Kind: "key", Name: "extra", Data: cp(d.ExtraKey), Msg: cp(t.Value)})
+			case t.Type == refotr.TLVDisconnected:
+				p.emit(Event{Kind: "sec", Name: "GoneInsecure"})
+			}
+		}
+	}
+	r.Out = p.refOut(out)
 }
